@@ -15,6 +15,8 @@ import (
 
 const verifDir = "/verif"
 
+var evidenceDir = "/verif/evidence"
+
 type Ground struct {
 	Name   string
 	OK     bool
@@ -109,7 +111,7 @@ func (rep *Report) finish() int {
 		}
 	}
 	known := loadKnown()
-	os.RemoveAll(filepath.Join(verifDir, "evidence", "replay", rep.Property))
+	os.RemoveAll(filepath.Join(evidenceDir, "replay", rep.Property))
 	var failures []failure
 	byBackend := map[string]*struct {
 		N int     `json:"n"`
@@ -288,9 +290,9 @@ func (rep *Report) finish() int {
 		"property_id": rep.Property, "tier": rep.Tier, "seed": rep.Seed, "level": "proof",
 		"coverage": cov, "assumptions": rep.Assumptions, "wall_s": time.Since(rep.start).Seconds(), "violations": violations,
 	}
-	os.MkdirAll(filepath.Join(verifDir, "evidence"), 0o755)
+	os.MkdirAll(evidenceDir, 0o755)
 	b, _ := json.MarshalIndent(ev, "", " ")
-	os.WriteFile(filepath.Join(verifDir, "evidence", rep.Property+".json"), b, 0o644)
+	os.WriteFile(filepath.Join(evidenceDir, rep.Property+".json"), b, 0o644)
 	fmt.Printf("%s %s: %d obligations, %d discharged, %d failed (%d known), %d vacuity probes ok/%d, %.1fs wall, %.1fs solver\n",
 		rep.Property, rep.Tier, nObl, discharged, len(failures), len(failures)-violations, probesOK, probes, time.Since(rep.start).Seconds(), solverS)
 	if nObl == 0 {
@@ -304,7 +306,7 @@ func (rep *Report) finish() int {
 }
 
 func (rep *Report) writeReplay(f failure) string {
-	dir := filepath.Join(verifDir, "evidence", "replay", rep.Property)
+	dir := filepath.Join(evidenceDir, "replay", rep.Property)
 	os.MkdirAll(dir, 0o755)
 	var out *ReplayOutcome
 	if rep.Replayer != nil && f.res != nil && f.res.Res == "sat" {
